@@ -144,3 +144,8 @@ UNIT = {
       extra=FONT_WRITER_RW),
  },
 }
+
+# C10 (documents built from scratch reload equal, mechanism "derived dictionary writers incl. indirect fields"): HashMap<Name, V> (/Font and /ExtGState of the page resources) and the Font pair (/Subtype <-> FontData variant)
+# -- the same obligations also count for C10 (no contract changed).
+for k__ in ['map_from_primitive', 'map_to_primitive', 'font_from_primitive', 'font_to_primitive']:
+    UNIT['items'][k__]['props'] = list(UNIT['items'][k__]['props']) + ['C10']
